@@ -4,6 +4,9 @@ use std::io::{self, BufRead, Write};
 use std::panic::{catch_unwind, AssertUnwindSafe};
 
 mod graph;
+mod checkers;
+mod trackers;
+mod build;
 
 fn main() {
   // Silence panic messages (expected panics are part of the observations).
@@ -22,6 +25,7 @@ fn main() {
       writeln!(out, "case {} {}", toks[1], toks[2]).unwrap();
       let res = catch_unwind(AssertUnwindSafe(|| match toks[1] {
         "graph" => graph::run_case(body),
+        "build" => build::run_case(body),
         _ => vec!["bad-kind".to_string()],
       }));
       match res {
